@@ -7,6 +7,7 @@ CONSTANTS
   MaxLen = 1
   Shapes = {0, 1}
   Bases = {0, 65534}
+  MaskNs = {0}
   Mutant = "skipts"
 INVARIANTS TypeOK EveryProtected MaskExact RecoveryOK
 CHECK_DEADLOCK FALSE
